@@ -18,6 +18,7 @@ import (
 	"math/rand"
 	"net"
 	"strings"
+	"sync"
 	"testing"
 	"time"
 
@@ -50,7 +51,105 @@ type reqRun struct {
 	planted realState
 	boKnown map[string]bool
 	driver  string
+	// alias completion (outcome "aliasfail"): helper alias targets handed out so far, answered
+	// by helperDown when the cache's own CNAME chase asks for them through the Queryer
+	hmu     sync.Mutex
+	helpers map[string]helperInfo
+	hseq    int
 }
+
+// helperInfo is what the scripted downstream answers for one helper alias target: an alias
+// straight back to the owner it was handed out for (spelled exactly as in that request).
+type helperInfo struct {
+	owner  string
+	qtype  uint16
+	qclass uint16
+}
+
+// chaseQueryer is the middleware.Queryer the cache's alias completion uses: the same cache
+// over the scripted helper downstream, entered with an internal writer (as sdns.go wires the
+// real one over the real chain).
+type chaseQueryer struct{ r *reqRun }
+
+func (q *chaseQueryer) Query(ctx context.Context, req *dns.Msg) (*dns.Msg, error) {
+	ctx, _ = middleware.EnsureResolutionAttemptGuard(ctx)
+	w := mock.NewWriter("tcp", "127.0.0.255:0") // Internal() == true, like middleware.BufferWriter
+	ch := middleware.NewChain([]middleware.Handler{q.r.c, middleware.HandlerFunc(q.r.helperDown)})
+	ch.Reset(w, req)
+	ch.Next(ctx)
+	q.r.res.Count("alias_subqueries", 1)
+	if !w.Written() {
+		return nil, middleware.ErrNoResponse
+	}
+	return w.Msg(), nil
+}
+
+// helperDown is the downstream of the chase sub-pipeline. A helper target answers with an
+// alias back to its owner plus a record of the asked type for the owner, so the sub-query's own
+// write-back sees a complete answer and does not start a chase of its own; the outer chase
+// then finds that the chain has returned to the name it started from.
+func (r *reqRun) helperDown(ctx context.Context, ch *middleware.Chain) {
+	req := ch.Request.Msg()
+	q := req.Question[0]
+	r.hmu.Lock()
+	h, ok := r.helpers[strings.ToLower(q.Name)]
+	r.hmu.Unlock()
+	if !ok {
+		// nothing but helper targets may ever be chased in this harness
+		r.res.Skip("alias chase asked the sub-pipeline for %s type %d, which is not a helper target", q.Name, q.Qtype)
+		ch.CancelWithRcode(dns.RcodeServerFailure, false)
+		return
+	}
+	m := new(dns.Msg)
+	m.SetReply(req)
+	m.Answer = []dns.RR{&dns.CNAME{Hdr: dns.RR_Header{Name: q.Name, Rrtype: dns.TypeCNAME, Class: q.Qclass, Ttl: 300}, Target: h.owner}}
+	if rr := recordOf(h.owner, q.Qtype, q.Qclass); rr != nil {
+		m.Answer = append(m.Answer, rr)
+	}
+	_ = ch.Writer.WriteMsg(m)
+	ch.Cancel()
+}
+
+func recordOf(name string, t, class uint16) dns.RR {
+	hdr := dns.RR_Header{Name: name, Rrtype: t, Class: class, Ttl: 300}
+	switch t {
+	case dns.TypeA:
+		return &dns.A{Hdr: hdr, A: net.IPv4(192, 0, 2, 81).To4()}
+	case dns.TypeAAAA:
+		return &dns.AAAA{Hdr: hdr, AAAA: net.ParseIP("2001:db8::81")}
+	case dns.TypeMX:
+		return &dns.MX{Hdr: hdr, Preference: 10, Mx: "mx.example."}
+	case dns.TypeTXT:
+		return &dns.TXT{Hdr: hdr, Txt: []string{"v=alias"}}
+	}
+	return nil
+}
+
+// aliasReply is the downstream's answer of outcome "aliasfail": NOERROR with a CNAME whose
+// completion by the cache must fail.  Variant 0: the alias names its own owner (no sub-query).
+// Variant 1: the alias names a fresh helper target outside the modelled name tree; the cache
+// asks for it through the Queryer and the helper's answer leads back to the owner.
+func (r *reqRun) aliasReply(req *dns.Msg, variant int) *dns.Msg {
+	q := req.Question[0]
+	m := new(dns.Msg)
+	m.SetReply(req)
+	target := q.Name
+	if variant == 1 && recordOf(q.Name, q.Qtype, q.Qclass) != nil {
+		r.hmu.Lock()
+		r.hseq++
+		target = fmt.Sprintf("t%d.c13-alias-helper.", r.hseq)
+		r.helpers[target] = helperInfo{owner: q.Name, qtype: q.Qtype, qclass: q.Qclass}
+		r.hmu.Unlock()
+		r.res.Count("aliasfail_via_queryer", 1)
+	} else {
+		r.res.Count("aliasfail_self", 1)
+	}
+	m.Answer = []dns.RR{&dns.CNAME{Hdr: dns.RR_Header{Name: q.Name, Rrtype: dns.TypeCNAME, Class: q.Qclass, Ttl: 300}, Target: target}}
+	return m
+}
+
+// sharedFailure: the downstream outcomes that describe shared resolution state.
+func sharedFailure(o string) bool { return o == "servfail" || o == "authfail" || o == "aliasfail" }
 
 // the EDNS layer in front of the cache (it owns the OPT / EDE of wire-served replies)
 var ednsLayer *edns.EDNS
@@ -83,8 +182,9 @@ func newCache(cfg mCfg, clock *vclock) *mcache.Cache {
 
 func newReqRun(in *mInput, res *vh.Result, tr *traceWriter, shapeIdx int, rng *rand.Rand, id, driver string) *reqRun {
 	r := &reqRun{in: in, res: res, tr: tr, sh: getShape(shapeIdx), rng: rng, clock: newClock(), id: id, driver: driver,
-		boKnown: map[string]bool{}}
+		boKnown: map[string]bool{}, helpers: map[string]helperInfo{}}
 	r.c = newCache(in.Cfg, r.clock)
+	r.c.SetQueryer(&chaseQueryer{r: r})
 	r.fc = r.c.VerifC13Failure()
 	r.store, _ = r.c.Store().(*mcache.Store)
 	r.o = newOracle(in.Cfg, r.clock)
@@ -233,6 +333,8 @@ func (r *reqRun) serveOutcome(ctx context.Context, ch *middleware.Chain, o outco
 		resp = usefulReply(req, r.rng)
 	case "servfail":
 		resp = servfailReply(req, dns.ExtendedErrorCodeDNSBogus, "validation failure", r.rng)
+	case "aliasfail":
+		resp = r.aliasReply(req, ctl.variant)
 	case "authfail":
 		switch r.rng.Intn(3) {
 		case 0:
@@ -419,7 +521,7 @@ func (r *reqRun) envelope(what, id string, ra time.Time, prev *oEnt) {
 
 // afterRequest evaluates the C13 predicates on one served request.
 func (r *reqRun) afterRequest(k qkey, o outcome, rp reply, calls int, covered bool, before *oracle, rs realState) {
-	local := o.O != "useful" && o.O != "servfail" && o.O != "authfail"
+	local := o.O != "useful" && !sharedFailure(o.O)
 	hit := rp.cachedFailure()
 	desc := fmt.Sprintf("request %v (%s type %d cd=%d scope=%d, %s-born) with downstream outcome %s/zone %d",
 		k, r.sh.names[k.n], r.sh.types[k.t], k.cd, k.s, map[bool]string{true: "wire", false: "message"}[rp.wire], o.O, o.Z)
@@ -511,7 +613,7 @@ func (o *oracle) applyOutcome(k qkey, out outcome) {
 	case "useful":
 		o.resetMatching(k)
 		o.resetQ(qkey{k.n, k.t, k.c, k.cd, 0}) // the answer is global: the shared-key write resets the shared audience too
-	case "servfail":
+	case "servfail", "aliasfail":
 		o.recordQ(k, "response")
 	case "authfail":
 		o.recordZ(zkey{out.Z, k.c}, "authority")
@@ -561,11 +663,21 @@ func (r *reqRun) step(s mStep) bool {
 			r.o.applyOutcome(k, out)
 		}
 		resName := s.O
-		if resName != "useful" && resName != "servfail" && resName != "authfail" {
+		if resName != "useful" && !sharedFailure(resName) {
 			resName = "local"
 		}
 		if hit {
 			resName = "hit"
+		}
+		if s.O == "aliasfail" && !hit && calls > 0 {
+			if k.s != 0 {
+				r.res.Count("aliasfail_scoped", 1)
+			}
+			if !(rp.written && rp.rcode == dns.RcodeServerFailure) {
+				// the scripted alias was meant to fail in the cache's own completion
+				r.drift("%s: alias completion did not end in SERVFAIL (written=%v rcode=%d)", s.String(), rp.written, rp.rcode)
+				r.res.Count("aliasfail_not_servfail", 1)
+			}
 		}
 		ev["k"], ev["o"], ev["z"], ev["born"], ev["down"], ev["res"] = s.K, s.O, s.Z, born, calls > 0, resName
 		got = obs{hit: hit, kind: "-"}
